@@ -233,18 +233,45 @@ func addR54(w *World, r *Report) {
 		// message fields
 		fields := map[string]string{}
 		fieldPos := map[string]token.Pos{}
-		for _, a := range pos {
-			ast.Inspect(a, func(n ast.Node) bool {
+		// a message (or a part of it) may be built into a local first: a value temporary stands for its literal
+		valTemps(info, fl.fd)
+		resolve := func(e ast.Expr) ast.Expr {
+			for i := 0; i < 4; i++ {
+				id, ok := ast.Unparen(e).(*ast.Ident)
+				if !ok {
+					break
+				}
+				x, ok := valTempExpr[info.Uses[id]]
+				if !ok {
+					break
+				}
+				e = x
+			}
+			return e
+		}
+		var collect func(e ast.Expr, depth int)
+		collect = func(e ast.Expr, depth int) {
+			if depth > 6 {
+				return
+			}
+			ast.Inspect(resolve(e), func(n ast.Node) bool {
 				if kv, ok := n.(*ast.KeyValueExpr); ok {
 					if id, ok := kv.Key.(*ast.Ident); ok {
-						if _, isLit := ast.Unparen(stripAddr(kv.Value)).(*ast.CompositeLit); !isLit {
+						val := resolve(kv.Value)
+						if _, isLit := ast.Unparen(stripAddr(val)).(*ast.CompositeLit); !isLit {
 							fields[id.Name] = fl.canon(kv.Value)
 							fieldPos[id.Name] = kv.Pos()
+						} else if val != kv.Value {
+							collect(val, depth+1)
+							return false
 						}
 					}
 				}
 				return true
 			})
+		}
+		for _, a := range pos {
+			collect(a, 0)
 		}
 		wantF := map[string]string{"From": caller + ".Address().Bytes()", "To": addr + ".Bytes()", "Data": input, "Value": value + ".Bytes()", "Gas": "&" + gas, "Index": "&" + nodeVar + ".Index"}
 		if kind == "post" {
@@ -268,30 +295,15 @@ func addR54(w *World, r *Report) {
 			}
 		}
 		if kind == "post" {
-			// Error: &errorMsg where errorMsg is assigned err.Error() only, under err != nil
+			// Error: the address of a string that only ever holds "" or the text of the frame's error (SSA)
 			key := "vm.(*EVM).Call/post/msg.Error"
 			got := fields["Error"]
-			ev := strings.TrimPrefix(got, "&")
-			ok := strings.HasPrefix(got, "&") && ev != ""
-			n := 0
-			ast.Inspect(fl.fd.Body, func(nd ast.Node) bool {
-				if ifs, isIf := nd.(*ast.IfStmt); isIf && fl.canon(ifs.Cond) == errVar+" != nil" {
-					for _, st := range ifs.Body.List {
-						if as, isAs := st.(*ast.AssignStmt); isAs && len(as.Lhs) == 1 && fl.canon(as.Lhs[0]) == ev {
-							if fl.canon(as.Rhs[0]) == errVar+".Error()" {
-								n++
-							} else {
-								ok = false
-							}
-						}
-					}
-				}
-				return true
-			})
-			if ok && n == 1 {
-				r.holds("R5.4", key, w.pos(fieldPos["Error"]), "message field Error is the text of the frame's error, set only under err != nil")
+			if fn := w.Func(forkPath(pkVM), "(*EVM).Call"); fn == nil {
+				r.undecided("R5.4", key, "-", "function not found")
+			} else if ok, p, why := postErrorTextOK(w, fn, errVar); ok {
+				r.holds("R5.4", key, w.pos(p), "message field Error points at a string that holds the text of the frame's error, or \"\" when there is none")
 			} else {
-				r.violated("R5.4", key, w.pos(fieldPos["Error"]), "message field Error (`"+got+"`) is not the text of the frame's error under err != nil")
+				r.violated("R5.4", key, w.pos(p), "message field Error (`"+got+"`) is not the text of the frame's error: "+why)
 			}
 		}
 	}
@@ -432,9 +444,14 @@ func addR55(w *World, r *Report) {
 				ast.Inspect(fd.Body, func(n ast.Node) bool {
 					switch x := n.(type) {
 					case *ast.AssignStmt:
-						for _, l := range x.Lhs {
+						for li, l := range x.Lhs {
 							if isFlag(p, l) {
 								nw++
+								// the object under construction: `x := &T{…}` earlier in the same straight-line body, flag set to a constant
+								if len(x.Lhs) == len(x.Rhs) && constructorInit(p, fd, x, ast.Unparen(l).(*ast.SelectorExpr), x.Rhs[li]) {
+									r.holds("R5.5", "writer:"+name+"/literal", w.pos(x.Pos()), "the constructor sets the flag of the object it is building to a constant, before the object is handed out")
+									continue
+								}
 								r.violated("R5.5", "writer:"+name, w.pos(x.Pos()), "the join-point enable flag is written inside "+name+": a frame that switches it must restore it on every path, and frames running meanwhile fire no join points")
 							}
 						}
@@ -461,7 +478,52 @@ func addR55(w *World, r *Report) {
 			}
 		}
 	}
-	sites := w.callSitesOf(func(f *types.Func) bool { return setters[f] })
+	// a function whose whole body is one call of a setter with constant arguments is a setter as well
+	// (AspectCall / CloseAspectCall going through one shared unexported setter)
+	wrapperCall := map[*ast.CallExpr]bool{}
+	for round := 0; round < 3; round++ {
+		for _, path := range paths {
+			p := w.Pkgs[path]
+			for _, f := range p.Syntax {
+				for _, d := range f.Decls {
+					fd, ok := d.(*ast.FuncDecl)
+					if !ok || fd.Body == nil || len(fd.Body.List) != 1 {
+						continue
+					}
+					es, ok := fd.Body.List[0].(*ast.ExprStmt)
+					if !ok {
+						continue
+					}
+					call, ok := es.X.(*ast.CallExpr)
+					if !ok {
+						continue
+					}
+					callee, _ := typeutil.Callee(p.TypesInfo, call).(*types.Func)
+					self, _ := p.TypesInfo.Defs[fd.Name].(*types.Func)
+					if callee == nil || self == nil || !setters[callee] || setters[self] {
+						continue
+					}
+					constArgs := true
+					for _, a := range call.Args {
+						if tv, ok := p.TypesInfo.Types[a]; !ok || tv.Value == nil {
+							constArgs = false
+						}
+					}
+					if constArgs {
+						setters[self] = true
+						wrapperCall[call] = true
+						r.holds("R5.5", "writer:"+pkgShortOf(path)+"."+declRelName(fd), w.pos(call.Pos()), "host-facing setter: its whole body calls a setter with constant arguments")
+					}
+				}
+			}
+		}
+	}
+	var sites []callSite
+	for _, cs := range w.callSitesOf(func(f *types.Func) bool { return setters[f] }) {
+		if !wrapperCall[cs.call] {
+			sites = append(sites, cs)
+		}
+	}
 	if len(sites) == 0 {
 		r.holds("R5.5", "setter-callers", "-", fmt.Sprintf("%d setters, none called from inside the fork", len(setters)))
 	}
@@ -471,6 +533,37 @@ func addR55(w *World, r *Report) {
 	r.need("R5.5", 3)
 }
 
+
+// constructorInit: as is a top-level statement of fd that assigns a constant to sel = X.f where X is a
+// local defined earlier at the top level of fd by a composite literal (or its address).
+func constructorInit(p *packages.Package, fd *ast.FuncDecl, as *ast.AssignStmt, sel *ast.SelectorExpr, rhs ast.Expr) bool {
+	if tv, ok := p.TypesInfo.Types[rhs]; !ok || tv.Value == nil {
+		return false
+	}
+	id, ok := ast.Unparen(sel.X).(*ast.Ident)
+	if !ok {
+		return false
+	}
+	obj := p.TypesInfo.Uses[id]
+	defined := false
+	for _, st := range fd.Body.List {
+		if st == ast.Stmt(as) {
+			return defined
+		}
+		d, ok := st.(*ast.AssignStmt)
+		if !ok || d.Tok != token.DEFINE || len(d.Lhs) != 1 || len(d.Rhs) != 1 {
+			continue
+		}
+		if lid, ok := d.Lhs[0].(*ast.Ident); ok && p.TypesInfo.Defs[lid] == obj && obj != nil {
+			e := ast.Unparen(d.Rhs[0])
+			if u, ok := e.(*ast.UnaryExpr); ok && u.Op == token.AND {
+				e = ast.Unparen(u.X)
+			}
+			_, defined = e.(*ast.CompositeLit)
+		}
+	}
+	return false
+}
 
 // addR56: *big.Int arguments of the frame entry points at their call sites inside the fork are fresh.
 func addR56(w *World, r *Report) {
